@@ -9,6 +9,8 @@ import traceback
 
 VERIF = os.path.dirname(os.path.dirname(os.path.abspath(__file__)))
 REPO = os.environ.get('VERIF_REPO', '/repo')
+# scratch runs (seeded changes in a copy of the repository) write their evidence / replays elsewhere
+OUT = os.environ.get('VERIF_EVIDENCE_DIR') or VERIF
 
 
 def assert_repo_package():
@@ -74,7 +76,7 @@ class Check:
         self.trusted_base = []
         self.checker_cmd = f"bin/check {pid} --tier {tier}"
         self.extra = {}
-        os.makedirs(os.path.join(VERIF, 'replays', pid), exist_ok=True)
+        os.makedirs(os.path.join(OUT, 'replays', pid), exist_ok=True)
 
     # ------------------------------------------------------------------ deductive part
     def add_function(self, span):
@@ -147,7 +149,7 @@ class Check:
             self.more_of_same[key] = self.more_of_same.get(key, 0) + 1
             return
         h = hashlib.sha1(key.encode()).hexdigest()[:10]
-        path = os.path.join(VERIF, 'replays', self.pid, f"{h}.json")
+        path = os.path.join(OUT, 'replays', self.pid, f"{h}.json")
         replay = dict(replay)
         replay.update({'property': self.pid, 'key': key, 'text': text, 'tier': self.tier, 'seed': self.seed})
         with open(path, 'w') as f:
@@ -192,10 +194,13 @@ class Check:
         ev = {'property_id': self.pid, 'tier': self.tier, 'seed': int(self.seed), 'level': self.level,
               'coverage': cov, 'assumptions': self.assumptions, 'wall_s': round(wall, 2),
               'violations': len(self.violations)}
-        os.makedirs(os.path.join(VERIF, 'evidence'), exist_ok=True)
-        with open(os.path.join(VERIF, 'evidence', f"{self.pid}.json"), 'w') as f:
+        os.makedirs(os.path.join(OUT, 'evidence'), exist_ok=True)
+        with open(os.path.join(OUT, 'evidence', f"{self.pid}.json"), 'w') as f:
             json.dump(jsonable(ev), f, indent=1)
-        for key, text, path, suffix in self.violations:
+        for n_, (key, text, path, suffix) in enumerate(self.violations):
+            if n_ == 15:
+                print(f"  ... {len(self.violations) - 15} more violation(s), see evidence / replays")
+                break
             print(f"VIOLATION property={self.pid} replay={path}{suffix}")
             print(f"  {text}" + (f"  (+{self.more_of_same[key]} more with the same key)" if key in self.more_of_same else ''))
         print(f"[{self.pid}] tier={self.tier} obligations={n_ob} discharged={n_pr} "
